@@ -233,7 +233,7 @@ def main():
     spec = plan.PLAN[pid]
     jobs = [j for j in spec["jobs"] if tier in j.get("tiers", ("quick", "thorough"))]
     if args.only:
-        jobs = [j for j in jobs if args.only in j.get("label", "") or args.only in cfg_str(j.get("cfg", {}))]
+        jobs = [j for j in jobs if args.only in j.get("label", "") or args.only in (j.get("harness", "") + ":" + cfg_str(j.get("cfg", {})))]
     known = load_known()
 
     inconclusive = []
